@@ -396,6 +396,16 @@ func checkC10(c *core.Ctx, r *core.Report) {
 		if len(callsTo(fn, persist)) > 0 {
 			return fn
 		}
+		// only a pure forwarder hands its obligations on: a function that discards WAL files itself (directly or
+		// through the discard wrappers) keeps them, even when the persisting call sits in a helper it calls
+		for _, ci := range core.CallsIn(fn) {
+			if core.IsCallTo(ci, deleteWAL) || core.IsCallTo(ci, osRemove) || core.IsCallTo(ci, cleanDp) || core.IsCallTo(ci, cleanMN) || core.IsCallTo(ci, delDp) || core.IsCallTo(ci, delMN) {
+				return fn
+			}
+			if dwf := c.TryObj(pkgMetrics, "deleteWalFile"); dwf != nil && core.IsCallTo(ci, dwf) {
+				return fn
+			}
+		}
 		var cands []*ssa.Function
 		for _, ci := range core.CallsIn(fn) {
 			if h := ci.Common().StaticCallee(); h != nil && h.Blocks != nil && h.Parent() == nil && core.FnPkgPath(h) == core.FnPkgPath(fn) && len(callsTo(h, persist)) > 0 {
